@@ -363,8 +363,9 @@ func runC03(p *core.Prog, r *core.Result) {
 		"R3.5 a failing index load falls back to a full load; a failing index write cannot fail a load",
 		"R3.6 the build and watch commands never load from the index; Reload never does",
 		"R3.7 loading a target writes back exactly the record it read: a load (dry run, partial build, crash before the body) cannot erase a pending re-run",
+		"R3.8 the stamp a re-executed target records depends on the stamps of the dependencies this evaluation used (not those of its previous record): a build that dies after the target's record was written and before its dependents' records were leaves the dependents out of date (shared with C01 R1.3)",
 	}
-	r.NotDecided = []string{"kernel-level atomicity/durability of rename (no fsync: the crash model is process death, not power loss)", "convergence of outputs after recovery", "staleness through a re-executed dependency after a crash (decided under C01 R1.3)"}
+	r.NotDecided = []string{"kernel-level atomicity/durability of rename (no fsync: the crash model is process death, not power loss)", "convergence of outputs after recovery"}
 	m := buildEvalModel(p, r, "R3.0")
 	if m == nil {
 		return
@@ -704,6 +705,9 @@ func runC03(p *core.Prog, r *core.Result) {
 
 	// ---- R3.7 a load cannot erase a pending re-run
 	checkLoadRewritesRead(p, r, "R3.7")
+
+	// ---- R3.8 the recorded stamp covers this evaluation's dependencies
+	checkStampDependsOnDeps(p, r, m, "R3.8")
 
 	// ---- R3.5
 	load := need(p, r, "R3.5", "", "Project", "load")
